@@ -198,11 +198,16 @@ pub struct Interp<'a> {
     pub assignments_reached: usize,
     /// operands of the integer operation that raised the last arithmetic error
     pub last_arith: Option<Vec<RV>>,
+    /// D15: `x op= e` with x unbound when the node is entered and an `e` that fails or has effects.
+    /// C08 says operands are evaluated before the operator is applied (e first, then x is missed);
+    /// C04 reads the form as `x = x op e` (x is missed first). Only C08's check asserts its order
+    /// (`strict_opassign`); for every other property the region is unclaimed.
+    pub strict_opassign: bool,
 }
 
 impl<'a> Interp<'a> {
     pub fn new(ctx: &'a mut Ctx, mutable: bool, unit: Unit) -> Self {
-        Interp { ctx, mutable, unit, log: Vec::new(), assignments_reached: 0, last_arith: None }
+        Interp { ctx, mutable, unit, log: Vec::new(), assignments_reached: 0, last_arith: None, strict_opassign: false }
     }
 
     pub fn call(&mut self, name: &str, arg: &RV) -> RR {
@@ -258,7 +263,13 @@ impl<'a> Interp<'a> {
                 }
             },
             Assign(op, name, e) => {
-                let v = self.eval(e)?;
+                let d15_candidate = !self.strict_opassign && op.binop().is_some() && self.ctx.get(name).is_none();
+                let effects_before = (self.assignments_reached, self.log.len());
+                let v = self.eval(e);
+                if d15_candidate && (v.is_err() || effects_before != (self.assignments_reached, self.log.len())) {
+                    return Err(RE::Unclaimed("D15: compound assignment to an unbound target whose right-hand side fails or has effects"));
+                }
+                let v = v?;
                 self.assignments_reached += 1;
                 if !self.mutable {
                     return Err(RE::NotMutable);
@@ -319,7 +330,13 @@ pub struct RunOut {
 }
 
 pub fn run_full(a: &Ast, ctx: &mut Ctx, mutable: bool, unit: Unit) -> RunOut {
+    run_full_opts(a, ctx, mutable, unit, false)
+}
+
+/// `strict_opassign`: assert C08's order in the D15 region (see `Interp::strict_opassign`).
+pub fn run_full_opts(a: &Ast, ctx: &mut Ctx, mutable: bool, unit: Unit, strict_opassign: bool) -> RunOut {
     let mut it = Interp::new(ctx, mutable, unit);
+    it.strict_opassign = strict_opassign;
     let result = it.eval(a);
     RunOut { result, log: it.log, assignments_reached: it.assignments_reached, arith_operands: it.last_arith }
 }
